@@ -560,3 +560,32 @@ Theorem C05_forget_at_disconnect_refuted :
    snd (fst (start s2' 0)) = [OWire 5 1 [3; 2; 10] [3; 2]]).
 Proof. exact ex_late_ack. Qed.
 Print Assumptions C05_forget_at_disconnect_refuted.
+
+(* ---------------------------------------------------------------- table installed after lookups (wave 16) *)
+(* Lookups are functions of the CURRENT table: from any state (whatever add_config attempts were made on the
+   still empty table of the session), once the session's table is installed -- downloaded or taken from the
+   TOC cache -- Log.toc is that table and C05_accept_iff decides acceptance against it. *)
+Theorem C05_installed_table_is_current : forall s tc,
+  let s1 := fst (fst (step s (ESetToc tc))) in
+  s_toc s1 = Some tc /\ s_cfgs s1 = s_cfgs s /\ s_blocks s1 = s_blocks s /\ s_link s1 = s_link s /\
+  snd (fst (step s (ESetToc tc))) = [].
+Proof. exact installed_table_is_current. Qed.
+Print Assumptions C05_installed_table_is_current.
+
+Theorem C05_early_add_then_table_example :
+  let evs := [ERefresh true; EPacket 1 [5; 0; 0]; ENew 100 1; EAddVar 0 1 1; EAddConfig 0] in
+  snd (add_config (final init_st (firstn 4 evs)) 0) = AccRejected KeyError /\
+  snd (add_config (final init_st (evs ++ [ESetToc ex_toc])) 0) = AccAccepted.
+Proof. exact ex_early_add_then_table. Qed.
+Print Assumptions C05_early_add_then_table_example.
+
+(* a memoised ident index that the installation by assignment does not invalidate (seeded/C05-p) answers
+   "not found" for an element that is in the table *)
+Theorem C05_memoised_index_refuted :
+  let m0 := mkMemo [] None in
+  let '(m1, r1) := memo_by_id m0 301 in
+  let m2 := memo_install m1 ex_toc in
+  r1 = None /\ snd (memo_by_id m2 301) = None /\
+  toc_by_id (m_table m2) 301 = Some (mkT 1 301 1).
+Proof. exact ex_memoised_index_refuted. Qed.
+Print Assumptions C05_memoised_index_refuted.
